@@ -37,13 +37,16 @@ func wireBody(n int, salt int) []byte {
 // tran sim / simipc: simulated network (engine B); tcp / ipc / tls+tcp: real
 // sockets on loopback (engine R).
 func wirePeer(w *W, nt *Net, s mangos.Socket, tran, role string) net.Conn {
-	if tran != "sim" && tran != "simipc" {
+	if w.Real {
 		return wirePeerReal(w, s, tran, role)
 	}
-	name := strings.TrimPrefix(w.Addr(tran), tran+"://")
-	addr := tran + "://" + name
+	// engine B: sim / simipc stand-ins, or the real tcp / ipc / tls+tcp
+	// endpoint code on the simulated network (verifsim/snet)
+	addr := w.Addr(tran)
+	name := NetKey(addr)
+	tlsSrv, tlsCli := simTLS()
 	if role == "listen" {
-		if err := s.Listen(addr); err != nil {
+		if err := w.ListenOn(s, addr); err != nil {
 			w.Failf("HARNESS/listen", "%v", err)
 			return nil
 		}
@@ -51,6 +54,9 @@ func wirePeer(w *W, nt *Net, s mangos.Socket, tran, role string) net.Conn {
 		if err != nil {
 			w.Failf("HARNESS/dial", "%v", err)
 			return nil
+		}
+		if tran == "tls+tcp" {
+			return &serialConn{Conn: tls.Client(c, tlsCli)}
 		}
 		return c
 	}
@@ -64,7 +70,7 @@ func wirePeer(w *W, nt *Net, s mangos.Socket, tran, role string) net.Conn {
 	}
 	mustSet(w, s, mangos.OptionDialAsynch, true)
 	mustSet(w, s, mangos.OptionReconnectTime, 10*time.Millisecond)
-	if err := s.Dial(addr); err != nil {
+	if err := w.DialOn(s, addr); err != nil {
 		w.Failf("HARNESS/dial", "%v", err)
 		return nil
 	}
@@ -75,6 +81,9 @@ func wirePeer(w *W, nt *Net, s mangos.Socket, tran, role string) net.Conn {
 	if !ev.Wait(dw) {
 		w.Failf("HARNESS/dial", "the socket never dialled")
 		return nil
+	}
+	if tran == "tls+tcp" {
+		return &serialConn{Conn: tls.Server(got, tlsSrv)}
 	}
 	return got
 }
@@ -154,7 +163,7 @@ func wirePeerReal(w *W, s mangos.Socket, tran, role string) net.Conn {
 	}
 }
 
-func c15Wire(w *W) { c15WireOn(w, []string{"sim", "simipc"}) }
+func c15Wire(w *W) { c15WireOn(w, []string{"sim", "simipc", "tcp", "ipc", "tls+tcp"}) }
 
 // c15WireReal: the same exchange with the codec over real loopback / unix /
 // TLS connections and the real transport/{tcp,ipc,tlstcp} files (engine R).
